@@ -1,8 +1,10 @@
 package main
 
 import (
+	"encoding/json"
 	"fmt"
 	"net/http"
+	"os"
 	"strings"
 
 	"github.com/jub0bs/cors"
@@ -26,6 +28,58 @@ type c10Case struct {
 	// cache-equivalent to itself, whatever was served before it)
 	Order    bool `json:"order_of_other_requests,omitempty"`
 	Thorough bool `json:"thorough_alphabet,omitempty"`
+	// Between != nil: R1 == R2, and everything happens in a freshly started process (see "fresh processes" in
+	// main.go): R1 is served, then Between is served - by a handler that overwrites in place the header slices it can
+	// reach, behind an outer layer that appends to every value slice of the response once the call has returned -
+	// then R2. A request is cache-equivalent to itself: both answers must be the same.
+	Between *vlib.Req `json:"in_a_fresh_process_with_this_request_in_between,omitempty"`
+}
+
+// c10Plain serves r and leaves the response alone.
+func c10Plain(h http.Handler, r vlib.Req) string {
+	rec := vlib.NewRec()
+	h.ServeHTTP(rec, r.HTTP())
+	res := vlib.Resp{Status: rec.Status, Hdr: map[string][]string{}, Body: string(rec.Body)}
+	for k, v := range rec.H {
+		if len(v) > 0 {
+			res.Hdr[k] = append([]string(nil), v...)
+		}
+	}
+	return res.Sig()
+}
+
+func c10JudgeBetween(k c10Case) *vlib.Failure {
+	if os.Getenv(childEnv) == "" {
+		if d, bad := inFreshProcess("C10", []c10Case{k})[0]; bad {
+			return vlib.Failf("%s", d)
+		}
+		return nil
+	}
+	h, _, m, err := c10BuildM(k.Passthrough, k.Cfg, k.Debug)
+	if err != nil {
+		return vlib.Failf("configuration of the C10 alphabet rejected: %v", err)
+	}
+	first := c10Plain(h, k.R1)
+	hs, in := m.Wrap(scribbler{}), &vlib.Noop{}
+	vlib.Serve(m.Wrap(in), &in.Calls, *k.Between, nil)
+	rec := vlib.NewRec()
+	hs.ServeHTTP(rec, k.Between.HTTP())
+	for hk, hv := range rec.H {
+		rec.H[hk] = append(hv, "appended-by-an-outer-layer")
+	}
+	vlib.Serve(m.Wrap(in), &in.Calls, *k.Between, map[string][]string{"Vary": {"Accept-Encoding"}})
+	if second := c10Plain(h, k.R2); second != first {
+		return vlib.Failf("in a freshly started process %s is answered\n  %s\nthen %s is served (its response header slices are appended to and overwritten by the layers that own that response), and the first request, sent again, is answered\n  %s", k.R1, first, *k.Between, second)
+	}
+	// a middleware built afterwards in the same process answers the same way too
+	h2, _, _, err := c10BuildM(k.Passthrough, k.Cfg, k.Debug)
+	if err != nil {
+		return vlib.Failf("configuration of the C10 alphabet rejected: %v", err)
+	}
+	if third := c10Plain(h2, k.R2); third != first {
+		return vlib.Failf("in a freshly started process %s is answered\n  %s\nthen %s is served (its response header slices are appended to and overwritten by the layers that own that response); a middleware built afterwards for the same configuration answers the first request with\n  %s", k.R1, first, *k.Between, third)
+	}
+	return nil
 }
 
 func c10Build(passthrough bool, l CfgLit, debug bool) (http.Handler, *vlib.Noop, error) {
@@ -124,6 +178,9 @@ func c10Compare(preset []string, r1, r2 vlib.Req, a, b vlib.Resp) *vlib.Failure 
 }
 
 func c10Judge(k c10Case) *vlib.Failure {
+	if k.Between != nil {
+		return c10JudgeBetween(k)
+	}
 	h, inner, m, err := c10BuildM(k.Passthrough, k.Cfg, k.Debug)
 	if err != nil {
 		return vlib.Failf("configuration of the C10 alphabet rejected: %v", err)
@@ -469,9 +526,56 @@ func checkC10(c *vlib.Ctx) (string, string) {
 	if !c.Stopped() {
 		c.ParRange(int64(len(jobs)-nPristine), 1, "C10 jobs after an adversarial history", func(i int64) { runJob(i + int64(nPristine)) })
 	}
+	// process histories: one request between two copies of another, in a process of its own
+	kinds := []vlib.Req{
+		{Method: "GET"}, {Method: "OPTIONS"},
+		{Method: "GET", Hdr: map[string][]string{"Origin": {"https://a.example"}}},
+		{Method: "GET", Hdr: map[string][]string{"Origin": {"https://denied.example"}}},
+		{Method: "OPTIONS", Hdr: map[string][]string{"Origin": {"https://a.example"}, "Access-Control-Request-Method": {"PUT"}}},
+		{Method: "OPTIONS", Hdr: map[string][]string{"Origin": {"https://a.example"}, "Access-Control-Request-Method": {"PUT"}, "Access-Control-Request-Headers": {"x-a"}, "Access-Control-Request-Private-Network": {"true"}}},
+		{Method: "OPTIONS", Hdr: map[string][]string{"Origin": {"https://a.example"}, "Access-Control-Request-Method": {"DELETE"}, "Access-Control-Request-Headers": {"x-zz"}}},
+		{Method: "OPTIONS", Hdr: map[string][]string{"Origin": {"https://denied.example"}, "Access-Control-Request-Method": {"PUT"}}},
+	}
+	var between []c10Case
+	for _, l := range c10BetweenConfigs() {
+		for _, d := range []bool{false, true} {
+			for i := range kinds {
+				for j := range kinds {
+					b := kinds[j]
+					between = append(between, c10Case{Cfg: l, Debug: d, R1: kinds[i], R2: kinds[i], Between: &b})
+				}
+			}
+		}
+	}
+	c.ParRange(int64(len(between)), 1, "C10 fresh processes", func(i int64) {
+		c.States.Add(1)
+		c.Transitions.Add(6)
+		ck.Try(between[i])
+	})
+	c.Set("fresh_process_histories", len(between))
 	c.Set("requests_per_job", len(reqs))
 	c.Set("jobs_config_x_debug_x_preset", len(jobs))
 	return levelMC, rule
 }
 
-func init() { registry["C10"] = checkC10 }
+// c10BetweenConfigs: one configuration per set of static response values (credentialed, wildcard with and without
+// Authorization, private-network access, exposed headers).
+func c10BetweenConfigs() []CfgLit {
+	return []CfgLit{
+		{Origins: []string{"https://a.example"}, Credentialed: true, Methods: []string{"PUT"}, RequestHeaders: []string{"X-A"}, ResponseHeaders: []string{"X-R"}, MaxAge: 30, PNA: true},
+		{Origins: []string{"*"}, Methods: []string{"*"}, RequestHeaders: []string{"*"}, ResponseHeaders: []string{"*"}},
+		{Origins: []string{"*"}, Methods: []string{"PUT"}, RequestHeaders: []string{"*", "Authorization"}, ResponseHeaders: []string{"X-R"}},
+		{Origins: []string{"https://a.example", "https://*.a.example"}, Credentialed: true, Methods: []string{"*"}, RequestHeaders: []string{"*"}, ResponseHeaders: []string{"X-R"}},
+	}
+}
+
+func init() {
+	registry["C10"] = checkC10
+	childJudges["C10"] = func(raw json.RawMessage) *vlib.Failure {
+		var k c10Case
+		if err := json.Unmarshal(raw, &k); err != nil {
+			vlib.HarnessError("fresh-process child: cannot decode case: %v", err)
+		}
+		return c10Judge(k)
+	}
+}
